@@ -147,18 +147,56 @@ def run(ctx):
                 built=[x.row() for x in bad_loc])
         okr = [x for x in rows if x.value_str().startswith('Ok((')]
         want = 'Ok((%sStartOk{client_properties: client_properties, locale: self.locale, mechanism: %s, response: auth::Sasl::response(self.auth)}, start.server_properties))' % (CONN, mech)
-        r.check('StartOk:fields', len(okr) == 2 and all(x.value_str() == want for x in okr), site, built=[x.value_str() for x in okr], expected=want)
+        import json as _json
+        import re as _re
+        okv = [x.value_str() for x in okr]
+        m = _re.match(r'^Ok\(\(%sStartOk\{client_properties: (\w+), locale: self\.locale, mechanism: %s, response: auth::Sasl::response\(self\.auth\)\}, start\.server_properties\)\)$' % (_re.escape(CONN), _re.escape(mech)), okv[0]) if okv else None
+        r.check('StartOk:fields', len(okr) >= 2 and m is not None and all(v == okv[0] for v in okv), site, built=sorted(set(okv)), expected=want)
+        PROPS = m.group(1) if m else 'client_properties'
+        # effective inserts into the property tables: direct ones, and the body of a local closure once per call of it
         evs, _ = ctx.events(fnp)
-        props = [(S.show(e.args[0]), S.show(e.args[1]), [g[1] for g in e.guards if g[2] == 'if' and 'let' in g[3]]) for e in evs if e.kind == 'callclosure' and len(e.args) == 2]
-        caps = [S.show(e.args[0]) for e in evs if e.kind == 'callclosure' and len(e.args) == 1]
-        r.eq('client-properties', [(k, v) for k, v, g in props],
-             [('"product"', 'built_info::PKG_NAME'), ('"version"', 'built_info::PKG_VERSION'), ('"platform"', 'format!("{} / {}", built_info::CFG_OS, built_info::RUSTC_VERSION)'),
-              ('"information"', 'self.information.Some.0')], site)
-        r.check('information-iff-configured', [g for k, v, g in props if k == '"information"'] == [['then']] and all(g == [] for k, v, g in props if k != '"information"'), site, built=props)
-        r.eq('capabilities', caps, ['"consumer_cancel_notify"', '"connection.blocked"'], site, why='the server only sends consumer cancel and blocked notices to clients that announce these capabilities')
-        ins = [[S.show(a) for a in e.args] for e in evs if e.kind == 'call' and e.callee == 'std::collections::BTreeMap::insert']
-        r.check('capabilities-attached', ['client_properties', '"capabilities"', 'amq_protocol::types::AMQPValue::FieldTable(capabilities)'] in ins and
-                ['capabilities', '$c0', 'amq_protocol::types::AMQPValue::Boolean(true)'] in ins and ['client_properties', '$c0', 'amq_protocol::types::AMQPValue::LongString($c1)'] in ins, site, built=ins)
+        eff = []
+        for e in evs:
+            if e.kind == 'call' and e.callee == 'std::collections::BTreeMap::insert' and not any(g[2] == 'closure' for g in e.guards):
+                eff.append(([S.show(a) for a in e.args], e))
+            if e.kind == 'callclosure':
+                f = e.extra
+                for d in evs:
+                    if d.kind == 'call' and d.callee == 'std::collections::BTreeMap::insert' and any(g[2] == 'closure' and g[3] == f[1] for g in d.guards):
+                        args = []
+                        for a in d.args:
+                            for (nm, pid), v in zip(f[2], e.args):
+                                a = S.replace(a, ('var', nm, pid), v)
+                            args.append(S.show(a))
+                        eff.append((args, e))
+        st_ok = [e for e in evs if e.kind == 'struct' and e.term[1].endswith('connection::StartOk')]
+        base = [x for g in st_ok[0].guards for x in S.guard_strs(g)] if st_ok else []  # what every successful StartOk is under anyway
+        flat = []
+        for args, e in eff:
+            mm = _re.match(r'^iter_item\(\((.*)\)\)$', args[1])
+            keys = [k.strip() for k in mm.group(1).split(', ')] if mm else [args[1]]
+            gs = [x for g in e.guards for x in S.guard_strs(g) if x not in base]
+            for k in keys:
+                flat.append((args[0], k, args[2], gs))
+        caps_ins = [x for x in flat if x[0] == PROPS and x[1] == '"capabilities"']
+        mc = _re.match(r'^amq_protocol::types::AMQPValue::FieldTable\((\w+)\)$', caps_ins[0][2]) if len(caps_ins) == 1 else None
+        CAPS = mc.group(1) if mc else None
+        r.check('capabilities-attached', CAPS is not None and caps_ins[0][3] == [], site, built=[x[:3] for x in caps_ins], expected='client_properties["capabilities"] = FieldTable(<the capability table>), unconditionally')
+        props = [(k, v, g) for t, k, v, g in flat if t == PROPS and k != '"capabilities"']
+        LS = 'amq_protocol::types::AMQPValue::LongString(%s)'
+        want_props = [('"product"', LS % 'built_info::PKG_NAME', []), ('"version"', LS % 'built_info::PKG_VERSION', []),
+                      ('"platform"', LS % 'format!("{} / {}", built_info::CFG_OS, built_info::RUSTC_VERSION)', []),
+                      ('"information"', LS % 'self.information.Some.0', ['case(self.information ~ Some(_))'])]
+        known_opts = ctx.vocab_fields('connection_options::ConnectionOptions')
+        extra = [p_ for p_ in props if p_ not in want_props]
+        # a property added for a *new* option may appear only when that option is set
+        extra_bad = [p_ for p_ in extra if not any(_re.match(r'^case\(self\.(\w+) ~ Some\(_\)\)$', g) and _re.match(r'^case\(self\.(\w+) ~', g).group(1) not in known_opts for g in p_[2])]
+        r.check('client-properties', all(w in props for w in want_props) and not extra_bad, site, built=props, expected=want_props,
+                why='product, version, platform always; information exactly when configured; nothing else unless a new option asks for it')
+        r.check('information-iff-configured', [g for k, v, g in props if k == '"information"'] == [['case(self.information ~ Some(_))']], site, built=[p_ for p_ in props if p_[0] == '"information"'])
+        caps = sorted((k, v, tuple(g)) for t, k, v, g in flat if t == CAPS)
+        r.eq('capabilities', caps, sorted([('"connection.blocked"', 'amq_protocol::types::AMQPValue::Boolean(true)', ()), ('"consumer_cancel_notify"', 'amq_protocol::types::AMQPValue::Boolean(true)', ())]), site,
+             why='the server only sends consumer cancel and blocked notices to clients that announce these capabilities')
         ev = ctx.evaluator(0)
         t = ev.run_fn(SUP, [('var', 'server', -1), ('var', 'client', -2)])
         r.eq('server_supports', S.show(t), 'std::iter::Iterator::any(std::str::split(server, \' \'), |$c0| ($c0 == client))', ctx.site(SUP), why='membership in the space-separated list')
